@@ -491,7 +491,13 @@ func main() {
 	fmt.Fprintf(os.Stderr, "c17: xz tool pass done at %.1fs\n", time.Since(t0).Seconds())
 	br := <-buildCh
 	fmt.Fprintf(os.Stderr, "c17: Wuffs decoders ready at %.1fs\n", time.Since(t0).Seconds())
-	if br.err != nil {
+	if te, ok := br.err.(*toolsError); ok {
+		// The Wuffs compiler itself (cmd/wuffs, cmd/wuffs-c: lang/*, internal/cgen) does not build from
+		// the working tree. That is outside this property's anchors (and is what C01..C05/C11 watch):
+		// skip the Wuffs-decoder oracle and say so, do not blame litonlylzma / std/lzma / std/xz.
+		r.Count("skipped:wuffs-compiler-does-not-build")
+		r.Note("Wuffs decoder oracle skipped, the Wuffs compiler does not build: " + firstLines(te.Error(), 4))
+	} else if br.err != nil {
 		// std/lzma or std/xz from the working tree no longer generate/compile: that breaks the
 		// conformance oracle, report it.
 		r.Fail("conformance:wuffs:build", "could not generate+compile std/lzma, std/xz from the working tree: "+firstLines(br.err.Error(), 12), "wuffs gen base std/xz && gcc (see harness/cmd/c17/wuffsdec.go)")
